@@ -52,7 +52,7 @@ class C12(Check):
     pid = "C12"
     title = "Symbolic equations and Jacobian agree with the numeric model"
     rules = {
-        "Y10": "(shared with C06) semantics of the function translator the symbolic model is built with: S2, S6, S9, S10, S11 of C06",
+        "Y10": "(shared with C06) semantics of the function translator the symbolic model is built with: S2-S7, S9-S13 of C06",
         "Y1": "components are substituted in dependency order: a loop that defines symbols consumed by later iterations iterates the "
               "cached topological order, and reactions are made available to derived quantities as well",
         "Y2": "every call of fn_to_sympy agrees with its signature (arity, keyword names, the argument list is a list and not a product)",
@@ -212,7 +212,7 @@ class C12(Check):
             self.violated("Y9", SYM, q, "both-tables", fn, "the symbolic equations are not assembled from both the static and the dynamic coefficient table")
         self.y2()
         self.y5()
-        self.borrow("C06", ("S2", "S6", "S9", "S10", "S11"), "Y10")
+        self.borrow("C06", ("S2", "S3", "S4", "S5", "S6", "S7", "S9", "S10", "S11", "S12", "S13"), "Y10")
         self.y7()
 
     def y2(self) -> None:
